@@ -12,8 +12,15 @@ Open Scope Z_scope.
 
 Definition env0 : var -> Z := fun _ => 0.
 
+(* library functions are scalar: no bundle slots, empty signal universe *)
+Fixpoint den_prog_aux (vals : list Z) (ds : list decl) : list Z :=
+  match ds with
+  | [] => vals
+  | d :: ds' => den_prog_aux (vals ++ [fst (den_decl (zalg env0) [] vals [] d)]) ds'
+  end.
+
 Definition call_vals (locals : list decl) (args : list Z) : list Z :=
-  den_prog_aux (zalg env0) args locals.
+  den_prog_aux args locals.
 
 Definition call_den (locals : list decl) (ret : expr) (args : list Z) : Z :=
-  den (zalg env0) (call_vals locals args) ret.
+  den (zalg env0) [] (call_vals locals args) [] ret.
